@@ -90,6 +90,15 @@ fn after(doc: &CoreDocument, queries: &[(i64, i64)], obs: &mut Vec<i64>, why: &m
     for (k, sc) in scopes.iter().enumerate() {
       let got = doc.resolve_method(q.as_str(), *sc);
       match got { Some(m) => { obs.push(1); put_u(obs, uints(m.id())); obs.push(data_of(m)); } None => obs.push(0) }
+      // every overload of the query argument must select the same entry as the text does: &String, &DIDUrl, DIDUrl (owned), &RelativeDIDUrl
+      if k <= 2 { let ids = |x: Option<&VerificationMethod>| x.map(|m| m.id().to_string());
+        let want_id = ids(got);
+        if ids(doc.resolve_method(&q, *sc)) != want_id { why.get_or_insert(format!("resolve_method(&String {:?}) selects another entry than the &str query", q)); }
+        if let Ok(u) = DIDUrl::parse(&q) { if ids(doc.resolve_method(&u, *sc)) != want_id { why.get_or_insert(format!("resolve_method(&DIDUrl {:?}) selects another entry than the text query", q)); }
+          if ids(doc.resolve_method(u.clone(), *sc)) != want_id { why.get_or_insert(format!("resolve_method(DIDUrl {:?}) (owned) selects another entry than the text query", q)); }
+          if k == 0 && doc.resolve_service(u.clone()).map(|s| s.id().to_string()) != doc.resolve_service(q.as_str()).map(|s| s.id().to_string()) { why.get_or_insert(format!("resolve_service(DIDUrl {:?}) (owned) selects another entry than the text query", q)); }
+          if k == 0 && doc.resolve_service(&u).map(|s| s.id().to_string()) != doc.resolve_service(q.as_str()).map(|s| s.id().to_string()) { why.get_or_insert(format!("resolve_service(&DIDUrl {:?}) selects another entry than the text query", q)); } }
+        if *d < 0 { if let Ok(u) = DIDUrl::parse(format!("{}{}", DIDS[1], q)) { if ids(doc.resolve_method(u.url(), *sc)) != want_id { why.get_or_insert(format!("resolve_method(&RelativeDIDUrl {:?}) selects another entry than the text query", q)); } } } }
       let pscope = if k == 0 { 9 } else { (k - 1) as i64 };
       let want = predict(&v, *d, *f, pscope);
       if !amb && got.map(data_of) != want { why.get_or_insert(format!("resolve_method({:?}, scope {}) differs from the set-of-entries prediction", q, k)); }
